@@ -318,6 +318,27 @@ func sourceWords() []string {
 var dictTail = []string{".", "=", "a", "#", "(", ")"}
 var dictContexts = []string{"T | join %s (U) on k", "T | join kind=inner %s (U) on k", "T | join (U) on k %s", "T | %s", "T | where a %s", "T | sort by a %s", "T | take 1 %s", "T | summarize %s", "T | project %s", "T | render x %s", "T | as x %s", "%s", "let %s"}
 
+// enumDictionary calls f for every dictionary source of this shard: word,
+// tail of <= maxTail tokens, context.
+func enumDictionary(maxTail, shard, nshards int, f func(src string)) int {
+	words := sourceWords()
+	for wi, w := range words {
+		if wi%nshards != shard {
+			continue
+		}
+		enumSoups(dictTail, maxTail, 0, 1, func(tail string) {
+			soup := w
+			if tail != "" {
+				soup += " " + tail
+			}
+			for _, ctx := range dictContexts {
+				f(fmt.Sprintf(ctx, soup))
+			}
+		})
+	}
+	return len(words)
+}
+
 // TestC08Dictionary: every word of the source dictionary followed by every
 // short sequence of option-like tokens, in every operator context. A word the
 // parser gives a meaning to (today or after a change) is reached this way
